@@ -1,6 +1,7 @@
 import EchoProofs.Tree.Chain
 import EchoProofs.C01
 import EchoProofs.C05
+import EchoProofs.C03
 /-!
 # The router properties, transported to the radix-tree model (L3)
 
@@ -121,5 +122,64 @@ theorem C05_no_fail_after_registration_tree (rs : List Route) (hinv : tableInvar
     (pooled : Option C05.Ctx) (r : C05.Request) :
     (C05.serveWith (C05.routerOf rs) (maxParam rs) pooled r).1.kind ≠ 3 :=
   C05.C05_no_fail_after_registration _ _ (tree_no_panic rs hinv) pooled r
+
+end Router.Tree
+
+namespace Router.Tree
+open Router Router.Spec
+
+theorem outRel_mna_inv {p : Str} {a : List Str} {o : Spec.Outcome}
+    (h : OutRel (.methodNotAllowed p a) o) : o = .methodNotAllowed a := by
+  cases h; rfl
+
+theorem outRel_notFound_inv {p : Str} {o : Spec.Outcome} (h : OutRel (.notFound p) o) : o = .notFound := by
+  cases h; rfl
+
+/-- **C03 on the tree model**: every method advertised in Allow (besides OPTIONS), sent to the same
+    path, is dispatched by the tree model to a handler registered for that method. -/
+theorem tree_allow_truthful (rs : List Route) (m path : Str) (n : Nat) (hn : maxParam rs ≤ n)
+    (hinv : tableInvariant rs = (true, true)) (p : Str) (allow : List Str)
+    (h : find (build rs) m path (List.replicate n []) = .methodNotAllowed p allow)
+    (m' : Str) (hm' : m' ∈ allow) (hopt : m' ≠ methodOptions) :
+    ∃ rm vals, find (build rs) m' path (List.replicate n []) = .dispatch rm vals ∧
+      ∃ e, e ∈ rs.map mkEntry ∧ e.method = m' ∧ e.hid = rm.hid := by
+  obtain ⟨o, ho, he⟩ := find_eq_route rs m path n hn hinv
+  rw [h] at ho
+  have ho' := outRel_mna_inv ho
+  subst ho'
+  -- the reference outcome for m is 405 with a permutation of `allow`
+  cases hr : route (rs.map mkEntry) m path with
+  | dispatch e v => rw [hr] at he; exact absurd he (by simp [C02.OutEquiv])
+  | notFound => rw [hr] at he; exact absurd he (by simp [C02.OutEquiv])
+  | methodNotAllowed al =>
+    rw [hr] at he
+    simp only [C02.OutEquiv] at he
+    have hmem : m' ∈ al := he.mem_iff.mp hm'
+    obtain ⟨e, v, hd, hmeth, _⟩ := C03.C03_allow_truthful _ _ _ _ hr m' hmem hopt
+    obtain ⟨o2, ho2, he2⟩ := find_eq_route rs m' path n hn hinv
+    rw [hd] at he2
+    generalize find (build rs) m' path (List.replicate n []) = f at ho2 ⊢
+    cases ho2 with
+    | dispatch rm mm vals =>
+      obtain ⟨he1, hv⟩ := he2
+      refine ⟨rm, vals, rfl, e, ?_, hmeth, ?_⟩
+      · have := C01.C01_sound_partial _ _ _ _ _ hd
+        rcases this with ⟨hm, _⟩ | ⟨_, hm, _⟩ <;> exact hm
+      · rw [← he1]; rfl
+    | notFound p' => exact absurd he2 (by simp [C02.OutEquiv])
+    | mna p' a' => exact absurd he2 (by simp [C02.OutEquiv])
+
+/-- **C03 on the tree model**: a path no registered pattern can be instantiated to gets 404. -/
+theorem tree_404 (rs : List Route) (m path : Str) (n : Nat) (hn : maxParam rs ≤ n)
+    (hinv : tableInvariant rs = (true, true))
+    (hno : ∀ e ∈ rs.map mkEntry, ∀ w, inst e.toks w ≠ some path) :
+    ∃ p, find (build rs) m path (List.replicate n []) = .notFound p := by
+  obtain ⟨o, ho, he⟩ := find_eq_route rs m path n hn hinv
+  rw [C03.C03_404 _ m path hno] at he
+  generalize find (build rs) m path (List.replicate n []) = f at ho ⊢
+  cases ho with
+  | notFound p => exact ⟨p, rfl⟩
+  | dispatch rm mm vals => exact absurd he (by simp [C02.OutEquiv])
+  | mna p a => exact absurd he (by simp [C02.OutEquiv])
 
 end Router.Tree
